@@ -186,7 +186,7 @@ def check_function(prop: str, res: Result, repo: Repo, fi: FuncInfo, want=("R-NO
             # min()/max() of a possibly empty cleaned window without default raises ValueError
             fl = list(_flatten(s.facts))
             seq = s.data.get("seq")
-            guarded = any(isinstance(c, tuple) and c[0] == "cmp" and any(a[0] == "sym" and str(a[1]).startswith("len#") for a in poly.all_atoms(c[2])) for c in fl) or any(
+            guarded = any(isinstance(c, tuple) and c[0] == "cmp" and any(a[0] == "lenf" for a in poly.all_atoms(c[2])) for c in fl) or any(
                 isinstance(c, tuple) and c[0] == "nonempty" for c in fl
             )
             if guarded:
